@@ -870,6 +870,12 @@ func (schema *Schema) IsEmpty() bool {
 		schema.MinProps != 0 || schema.MaxProps != nil {
 		return false
 	}
+	// A sub-schema, even an empty one, still rejects null unless nullable, and
+	// "not: {}" rejects everything: none of these is equivalent to `{}`.
+	if schema.Not != nil || schema.Items != nil || schema.AdditionalProperties.Schema != nil ||
+		len(schema.Properties) != 0 || len(schema.OneOf) != 0 || len(schema.AnyOf) != 0 || len(schema.AllOf) != 0 {
+		return false
+	}
 	if n := schema.Not; n != nil && n.Value != nil && !n.Value.IsEmpty() {
 		return false
 	}
